@@ -338,7 +338,7 @@ def stream_sites(ctx):
     try:
         found = enumerate_sites(common.REPO)
     except Exception as e:
-        ctx.violation('obligation', dict(what='route enumeration could not parse the sources: %r' % (e,)), nofail=True)
+        ctx.violation('obligation', dict(sig=dict(obligation=1), what='route enumeration could not parse the sources: %r' % (e,)), nofail=True)
         return False
     expected = sorted((a, b, c) for (a, b, c, _) in SITES)
     ctx.stat('sites_found', len(found))
@@ -351,16 +351,14 @@ def stream_sites(ctx):
     ok = True
     for s in new:
         ok = False
-        ctx.violation('obligation', dict(
-            what='route table broken: NEW site of an executing / state-changing primitive that the model does not '
+        ctx.violation('obligation', dict(sig=dict(obligation=2), what='route table broken: NEW site of an executing / state-changing primitive that the model does not '
                  'account for: %s in %s (%s)' % (s[2], s[1], s[0]),
             site=list(s), direction='new', stream='sites',
             note='the sentinel stream searched for an input that executes project code; see its result in this run'),
             nofail=True)
     for s in gone:
         ok = False
-        ctx.violation('obligation', dict(
-            what='route table broken: site listed in the model is gone or moved: %s in %s (%s)' % (s[2], s[1], s[0]),
+        ctx.violation('obligation', dict(sig=dict(obligation=3), what='route table broken: site listed in the model is gone or moved: %s in %s (%s)' % (s[2], s[1], s[0]),
             site=list(s), direction='removed', stream='sites'), nofail=True)
     # the Coq table must be the same list
     case = g_list(found, g_site, 'str * str * str')
@@ -369,7 +367,7 @@ def stream_sites(ctx):
     if err:
         raise RuntimeError('coq evaluation failed (sites): ' + err)
     if fails and ok:
-        ctx.violation('obligation', dict(what='harness table SITES and Coq site_table differ (the enumerated list equals '
+        ctx.violation('obligation', dict(sig=dict(obligation=4), what='harness table SITES and Coq site_table differ (the enumerated list equals '
                                               'SITES but not site_table)', stream='sites'), nofail=True)
         ok = False
     # configuration the table depends on: which names bypass the parser, and the default of the flag
@@ -377,8 +375,7 @@ def stream_sites(ctx):
     ctx.count('sites', ('auto_import_modules', tuple(auto)), nontrivial=True)
     if auto != AUTO_DEFAULT:
         ok = False
-        ctx.violation('obligation', dict(
-            what='route table broken: settings.auto_import_modules is %r, the model documents %r (more names are routed to a '
+        ctx.violation('obligation', dict(sig=dict(obligation=5), what='route table broken: settings.auto_import_modules is %r, the model documents %r (more names are routed to a '
                  'real import); the sentinel trees of this run carry modules of those names' % (auto, AUTO_DEFAULT),
             stream='sites'), nofail=True)
     try:
@@ -390,8 +387,7 @@ def stream_sites(ctx):
     ctx.count('sites', ('load_unsafe_extensions default', repr(dflt)), nontrivial=True)
     if dflt is not False:
         ok = False
-        ctx.violation('obligation', dict(
-            what='route table broken: the default of Project(load_unsafe_extensions=...) is %r, the model (Explicit false / '
+        ctx.violation('obligation', dict(sig=dict(obligation=6), what='route table broken: the default of Project(load_unsafe_extensions=...) is %r, the model (Explicit false / '
                  'Discovered None) says False' % (dflt,), stream='sites'), nofail=True)
     ctx.sample(dict(stream='sites', n=len(found), first=list(found[0]) if found else None))
     return ok
@@ -514,8 +510,7 @@ def stream_prog(ctx):
             term = translate_function(rel, name, 'sys_path')
         except (_Unknown, StopIteration, OSError, SyntaxError) as e:
             ok = False
-            ctx.violation('obligation', dict(
-                what='statement skeleton of %s (%s) is no longer the modelled try/finally program: '
+            ctx.violation('obligation', dict(sig=dict(obligation=7), what='statement skeleton of %s (%s) is no longer the modelled try/finally program: '
                      'untranslatable statement %s' % (name, rel, e), stream='prog', function=name), nofail=True)
             continue
         cases.append('(%s, %s)' % (model, term))
@@ -527,8 +522,7 @@ def stream_prog(ctx):
     for i in fails:
         ok = False
         rel, name, model, term = metas[i]
-        ctx.violation('obligation', dict(
-            what='statement skeleton of %s (%s) differs from the model program %s (sys.path swap / restore / '
+        ctx.violation('obligation', dict(sig=dict(obligation=8), what='statement skeleton of %s (%s) differs from the model program %s (sys.path swap / restore / '
                  'except / finally structure changed)' % (name, rel, model),
             observed=term, stream='prog', function=name), nofail=True)
     if metas:
@@ -660,7 +654,7 @@ def stream_swap(ctx):
     for c, r in zip(cases, results):
         which, init, arg, eff, extra, ex = c
         if not r.get('ok'):
-            ctx.violation('obligation', dict(what='swap stream: could not drive %s: %r' % (which, r.get('sig')),
+            ctx.violation('obligation', dict(sig=dict(obligation=9), what='swap stream: could not drive %s: %r' % (which, r.get('sig')),
                                              stream='swap'), nofail=True)
             continue
         dist[(which, ex)] = dist.get((which, ex), 0) + 1
@@ -709,8 +703,7 @@ Definition swap_ok (c : bool * option (list str) * list str * (list str -> list 
         m = metas[i]
         bad_property = m['sys_path_arg'] is not None and m['observed']['final'] != m['initial_sys_path']
         if not bad_property:
-            ctx.violation('obligation', dict(
-                what='correspondence exec/load_module_prog/get_module_info_prog: the real function and the model '
+            ctx.violation('obligation', dict(sig=dict(obligation=10), what='correspondence exec/load_module_prog/get_module_info_prog: the real function and the model '
                      'disagree on (final sys.path, exit, path seen by the call)', input=m, case=gcases[i],
                 stream='swap'), nofail=True)
     if metas:
@@ -865,7 +858,7 @@ def stream_route(ctx):
         common.setup_jedi(os.path.join(ctx.tmp, 'cache'))
         _raw_import_module()
     except Exception as e:
-        ctx.violation('obligation', dict(what='route stream: raw imports.import_module is not reachable any more (%r); '
+        ctx.violation('obligation', dict(sig=dict(obligation=11), what='route stream: raw imports.import_module is not reachable any more (%r); '
                                               'the in-situ route cases of the sentinel stream still run' % (e,),
                                          stream='route'), nofail=True)
         return False
@@ -899,7 +892,7 @@ def stream_route(ctx):
                 good = (kw.get('sys_path') == list(sp) and kw.get('is_global_search') is True) if top else \
                     (kw.get('path') == ['/parent'] and kw.get('sys_path') is None and kw.get('is_global_search') is False)
                 if not good:
-                    ctx.violation('obligation', dict(what='route stream: get_module_info called with unexpected arguments',
+                    ctx.violation('obligation', dict(sig=dict(obligation=12), what='route stream: get_module_info called with unexpected arguments',
                                                      case=list(c), call=kw, stream='route'), nofail=True)
         # the clause, directly
         if act[0] == 'compiled' and not unsafe:
@@ -915,7 +908,7 @@ def stream_route(ctx):
                               'with load_unsafe_extensions=False the helper is asked to __import__ %r with %r on its path '
                               '(not directories of the environment)' % (act[1], outside))
         if act[0] == 'compiled' and len(lms) + len(lpms) != 1 or act[0] == 'parse' and len(lpms) != 1:
-            ctx.violation('obligation', dict(what='route stream: more than one action for one import', case=list(c), log=log,
+            ctx.violation('obligation', dict(sig=dict(obligation=13), what='route stream: more than one action for one import', case=list(c), log=log,
                                              stream='route'), nofail=True)
         gcases.append('(%s, %s, %s, %s, %s, %s, %s, %s, %s)' % (
             gsl(auto), g_bool(unsafe), gsl(env), gs(names[0]), gs('.'.join(names)), g_fr(fr, names), gsl(sp),
@@ -927,7 +920,7 @@ def stream_route(ctx):
     if err:
         raise RuntimeError('coq evaluation failed (route): ' + err)
     for i in fails[:4]:
-        ctx.violation('obligation', dict(what='correspondence import_route: the real import_module and the model take '
+        ctx.violation('obligation', dict(sig=dict(obligation=14), what='correspondence import_route: the real import_module and the model take '
                                               'different actions (the direct clause check accepted the search path)',
                                          input=metas[i], case=gcases[i], stream='route'), nofail=True)
     if metas:
@@ -1663,7 +1656,7 @@ def stream_sentinel(ctx, broken_tie=False):
         c = gen_case(rng, i, sdir, variant=fixed_variants[i] if i < len(fixed_variants) else None, nq=nq)
         c['root_base'] = root_base
         cases.append(c)
-    results = common.pmap(_sentinel_task, cases, chunksize=1)
+    results = common.pmap(_sentinel_task, cases, chunksize=1, timeout=3600)
     errors, requests, lazy, helper_new = {}, {}, set(), set()
     nq_total = nres = nlm = nspawn = 0
     variants, options = {}, {}
@@ -1699,7 +1692,7 @@ def stream_sentinel(ctx, broken_tie=False):
             if 'parsed' in ins:
                 ctx.count('insitu', ('parse', tuple(ins['names'])), nontrivial=True)
                 if not ins['parsed']:
-                    ctx.violation('obligation', dict(what='in-situ: finder returned a source file but another file was parsed',
+                    ctx.violation('obligation', dict(sig=dict(obligation=15), what='in-situ: finder returned a source file but another file was parsed',
                                                      input=ins, stream='sentinel'), nofail=True)
                 continue
             fr = ins['fr']
@@ -1723,7 +1716,7 @@ def stream_sentinel(ctx, broken_tie=False):
     if err:
         raise RuntimeError('coq evaluation failed (insitu): ' + err)
     for i in fails[:4]:
-        ctx.violation('obligation', dict(what='in-situ correspondence import_route: a real query routed an import differently '
+        ctx.violation('obligation', dict(sig=dict(obligation=16), what='in-situ correspondence import_route: a real query routed an import differently '
                                               'from the model (finder asked / search path given to the helper)',
                                          input=gmeta[i], case=gcases[i], stream='sentinel'), nofail=True)
     if cases:
@@ -1773,12 +1766,12 @@ def stream_control(ctx):
     fired = [tree['sentinels'][n] for n in _fired(sdir, 'ctl')]
     ctx.count('control', ('detector', tuple(fired)), nontrivial=True)
     if not {'gi.py', 'pkg/__init__.py', 'pkg/sub.py'} <= set(fired):
-        ctx.violation('obligation', dict(what='positive control failed: importing sentinel modules directly did not leave '
+        ctx.violation('obligation', dict(sig=dict(obligation=17), what='positive control failed: importing sentinel modules directly did not leave '
                                               'their sentinel files (detector broken)', fired=fired, stderr=p.stderr[-500:],
                                          stream='control'), nofail=True)
     p = subprocess.run([os.path.join(root, 'venv/bin/python'), '-c', 'pass'], capture_output=True, timeout=60)
     if 'ctl__INTERPRETER' not in _fired(sdir, 'ctl'):
-        ctx.violation('obligation', dict(what='positive control failed: the interpreter wrapper leaves no sentinel',
+        ctx.violation('obligation', dict(sig=dict(obligation=18), what='positive control failed: the interpreter wrapper leaves no sentinel',
                                          stream='control'), nofail=True)
     for n in _fired(sdir, 'ctl'):
         os.unlink(os.path.join(sdir, n))
@@ -1796,8 +1789,7 @@ def stream_control(ctx):
     ctx.count('control', ('unsafe', tuple(fired), len(searched)), nontrivial=True)
     ctx.stat('control_unsafe', dict(fired=fired, load_module_requests_searching_project=len(searched)))
     if 'gi.py' not in fired or not searched:
-        ctx.violation('obligation', dict(
-            what='positive control failed: with load_unsafe_extensions=True the model routes `import gi` to a real import '
+        ctx.violation('obligation', dict(sig=dict(obligation=19), what='positive control failed: with load_unsafe_extensions=True the model routes `import gi` to a real import '
                  'that searches the project, but no sentinel fired / no such request was seen (the sentinel stream or the '
                  'model is not observing the real route)', fired=fired, insitu=r['insitu'][:3], errors=r['errors'],
             stream='control'), nofail=True)
